@@ -87,6 +87,10 @@ C04StepChecks(k, e, s, t, gb) ==
      { Chk("C04", "C04.step.batch_settles_each_request_at_most_once_within_its_limits", R # << >> /\ ~gb.opaque,
            gb.opaque \/ ParseOK(R, UE, 1, DOMAIN R),
            IF gb.opaque \/ ParseOK(R, UE, 1, DOMAIN R) THEN "" ELSE ToString(<<"requests", R, "settled", [i \in DOMAIN UE |-> <<UE[i].sender, UE[i].recipient, UE[i].pool_id, UE[i].in_amt, UE[i].in_denom, UE[i].out_amt, UE[i].out_denom>>]>>)),
+       \* beyond the listed properties: the same equation at EVERY end of block - the end blockers move users' funds only by settling
+       \* swap requests, paying matured unbondings and paying the rewards of delegations they change
+       Chk("EXT", "EXT.endblock.user_funds_move_only_by_settlement_unbonding_rewards", TRUE, badBal = {},
+           IF badBal = {} THEN "" ELSE ToString({<<x[1], x[2], DBal(s, t, x[1], x[2])>> : x \in badBal})),
        Chk("C04", "C04.step.batch_moves_user_funds_only_as_settled", R # << >> \/ E # << >>, badBal = {},
            IF badBal = {} THEN "" ELSE ToString({<<x[1], x[2], DBal(s, t, x[1], x[2]), Out(x[1], x[2]), In(x[1], x[2])>> : x \in badBal})),
        Chk("C04", "C04.step.queue_is_empty_after_the_batch", R # << >>, t.amm.queue = 0, "") }
